@@ -144,11 +144,22 @@ pub fn run_prop(ctx: &Ctx, sink: &mut Sink) {
         sink.push(Case { req, imp, tags });
     }
     // missing / non-executable command through the binary
-    for (kind, expect_tag) in [("missing", "bin-notfound"), ("noexec", "bin-cannotrun")] {
+    // (a command that cannot be run for any other reason than "missing" - no permission, a path through a
+    //  regular file, an unrecognised executable format - is "cannot be run": 126)
+    for (kind, expect_tag) in [("missing", "bin-notfound"), ("noexec", "bin-cannotrun"), ("notdir", "bin-cannotrun"), ("badformat", "bin-cannotrun")] {
         let dir = ctx.scratch("c19");
-        let path = dir.join("prog");
+        let mut path = dir.join("prog");
         if kind == "noexec" {
             std::fs::write(&path, b"not a program").unwrap();
+        }
+        if kind == "notdir" {
+            std::fs::write(&path, b"plain file").unwrap();
+            path = path.join("cmd");
+        }
+        if kind == "badformat" {
+            use std::os::unix::fs::PermissionsExt;
+            std::fs::write(&path, [0u8, 1, 2, 3, 0xff, 0xfe, 0, 0, 7, 7, 7, 7]).unwrap();
+            std::fs::set_permissions(&path, std::fs::Permissions::from_mode(0o755)).unwrap();
         }
         let out = std::process::Command::new(ctx.bin("xargs"))
             .arg("-n1")
